@@ -1353,7 +1353,45 @@ func (g *generator) nextInner() Op {
 				g.plan = []Op{child, child, last, {Op: "Panel", F: &FSpec{K: "rel", Subs: []*FSpec{{K: "all", Ids: []int{2}, Tgt: -1}}, Tgt: p}, Walk: g.walk()}}
 				return Op{Op: "NewEntity", Api: "World.NewEntity", Ids: []int{}}
 			}
-			if len(g.x.gfs) < 10 && g.pct(14) && !g.locked() {
+			if g.pct(9) && !g.locked() {
+				// map family B (types 0, 1, 3 .. 11, 13; relation 2 or 12 NOT owned by the map): Remove / RemoveBatch / Add with a target are
+				// accepted calls here - a new target, the explicit zero target ("reset", not "keep") or, with the relation
+				// configured but no target given, the plain operation that keeps the target. Cycles through (arity, variant).
+				if mapBSeq < 0 {
+					mapBSeq = int(genSeed%16) * 3 // the processes of one run start at different offsets of the 48 combinations
+				}
+				ar, variant := 1+mapBSeq%12, (mapBSeq/12)%4
+				mapBSeq++
+				rel := []int{12, 2}[g.rng.Intn(2)]
+				p := len(g.x.issued)
+				own := shiftIDs(ar)
+				with := append(append([]int{}, own...), rel)
+				child := Op{Op: "BuilderNew", Api: "Builder.New", Ids: with, HasRel: true, Rel: rel, HasTgt: true, Tgt: p}
+				act := Op{Op: "Exchange", Api: "generic.MapB.Remove", E: p + 2, Ar: ar, HasRel: true, Rel: rel, HasTgt: true, Tgt: p + 1}
+				switch variant {
+				case 1:
+					act.Tgt = -1 // explicit zero target
+				case 2:
+					act.HasTgt, act.Tgt = false, -1 // relation configured, no target: plain removal, the target stays
+				case 3:
+					act = Op{Op: "BatchExchange", Api: "generic.MapB.RemoveBatch", F: &FSpec{K: "all", Ids: []int{rel, own[0]}, Tgt: -1}, Ar: ar,
+						HasRel: true, Rel: rel, HasTgt: true, Tgt: []int{p + 1, -1}[g.rng.Intn(2)]}
+				}
+				if g.pct(25) {
+					// the same through Add: the child starts with the relation only
+					child.Ids = []int{rel}
+					act.Api = "generic.MapB.Add"
+					if variant == 3 {
+						act = Op{Op: "Exchange", Api: "generic.MapB.Add", E: p + 3, Ar: ar, HasRel: true, Rel: rel, HasTgt: true, Tgt: -1}
+					}
+				}
+				look := func(t int) Op {
+					return Op{Op: "Panel", F: &FSpec{K: "rel", Subs: []*FSpec{{K: "all", Ids: []int{rel}, Tgt: -1}}, Tgt: t}, Walk: g.walk()}
+				}
+				g.plan = []Op{{Op: "NewEntity", Api: "World.NewEntity", Ids: []int{}}, child, child, act, look(p), look(p + 1)}
+				return Op{Op: "NewEntity", Api: "World.NewEntity", Ids: []int{}}
+			}
+			if len(g.x.gfs) < 12 && g.pct(32) && !g.locked() {
 				// deck over (arity, builder method): a filter object is used once (which compiles it), then re-configured
 				// by one builder call, then used again - the re-configuration must take effect, for every arity
 				if filterDeckPos >= len(filterDeck) {
@@ -1579,7 +1617,25 @@ func (g *generator) nextInner() Op {
 			if g.p.NRes == 0 {
 				continue
 			}
-			if g.x.lazyRes < 6 && g.p.NRes < 200 && g.pct(10) {
+			if g.x.lazyRes == 0 && g.p.NRes+6 <= ecs.MaskTotalBits && g.pct(8) {
+				// the resource of the most recently registered type is removed, THEN a type the world has never seen is looked
+				// up: removing a resource must not give its type's id away - the two types stay independent
+				last := g.p.NRes - 1
+				plan := []Op{}
+				first := Op{Op: "ResRemove", Api: []string{"Resources.Remove", "generic.Resource.Remove"}[g.rng.Intn(2)], R: last}
+				if !g.x.w.Resources().Has(g.x.resIDs[last]) {
+					plan = append(plan, first)
+					first = Op{Op: "ResAdd", Api: "Resources.Add", R: last}
+				}
+				plan = append(plan,
+					Op{Op: "ResLazy", Api: []string{"ecs.GetResource", "ecs.ResourceID", "generic.NewResource"}[g.rng.Intn(3)], R: 0},
+					Op{Op: "ResGet", Api: "Resources.Has", R: last},
+					Op{Op: "ResAdd", Api: []string{"Resources.Add", "generic.Resource.Add", "ecs.AddResource"}[g.rng.Intn(3)], R: last},
+					Op{Op: "ResGet", Api: []string{"Resources.Get", "generic.Resource.Get", "ecs.GetResource"}[g.rng.Intn(3)], R: last})
+				g.plan = plan
+				return first
+			}
+			if g.x.lazyRes < 6 && g.p.NRes+6 <= ecs.MaskTotalBits && g.pct(10) {
 				// a resource type this world has never seen, looked up by type - whatever the lock state
 				return Op{Op: "ResLazy", Api: []string{"ecs.GetResource", "ecs.ResourceID", "generic.NewResource"}[g.rng.Intn(3)], R: g.x.lazyRes}
 			}
@@ -1645,6 +1701,7 @@ var (
 	filterDeck        []deckCard
 	filterDeckPos     int
 	filterDeckStarted bool
+	mapBSeq           = -1
 	genSeed           int64 // seed of this generator process (set by cmdGen)
 )
 
